@@ -67,6 +67,12 @@ def fake_host(kind):
     def proxy(real, **over):
         m = types.ModuleType(real.__name__)
         m.__dict__.update(real.__dict__)
+        if kind != 'linux':
+            # the REAL host's named integer constants (SOCK_NONBLOCK, SO_*, MSG_*, E*, SIG* ... of Linux) do not exist on the
+            # modelled host unless the model defines them
+            for k_, v_ in list(m.__dict__.items()):
+                if k_.isupper() and isinstance(v_, int) and not isinstance(v_, bool) and k_ not in over:
+                    del m.__dict__[k_]
         m.__dict__.update(over)
         return m
     # the platform's named constants (errno.ETIMEDOUT, signal.SIGBUS, socket.AF_INET6, socket.SOCK_STREAM ...)
@@ -156,6 +162,19 @@ def renderings(rnd, pools=None, flood=0):
                     out[('plant:%s:%d' % (name, i), err)] = pr.render(name, list(vec[:4]), [err] + list(vec[5:]), [b'/p']) or 'none'
                 except Exception as ex:
                     out[('plant:%s:%d' % (name, i), err)] = 'RAISED:' + type(ex).__name__
+
+    for name, m in sorted((pools or {}).items()):
+        for ci, c in enumerate(m.get('host_dependent', ())):
+            for j in range(4):
+                for v in (0, 1, 2, 5):
+                    S_ = [3, 1, 2, 5]
+                    S_[j] = c | v
+                    for err in (0, 35):
+                        key = ('hostconst:%s:%d:%d:%d' % (name, ci, j, v), err)
+                        try:
+                            out[key] = pr.render(name, S_, [err, 1, 2, 3], [b'/p']) or 'none'
+                        except Exception as ex:
+                            out[key] = 'RAISED:' + type(ex).__name__
 
     def param(name, S, k):
         try:
@@ -248,13 +267,26 @@ def run(ctx):
                                  allow_error=True), 'names taken from the host interpreter')
     per_host = {}
     pools = {}
+    per_host_pools = {}
     for host in ('real', 'linux', 'darwin', 'other'):
         import_under(host)
         for name, m in mined_pools().items():
             u = pools.setdefault(name, {'specific': set(), 'common': set(), 'tuples': set()})
             for k in u:
                 u[k] |= set(m[k])
+            per_host_pools.setdefault(name, []).append(set(m['specific']) | set(m['common']))
     pools = {n: {k: sorted(v) for k, v in u.items()} for n, u in pools.items()}
+    # a decoder whose mined constants DIFFER between the host models reads something of the host: those constants (each of
+    # their bits, alone and OR-ed with small numbers) are planted at every START position whatever the decoder's domain says -
+    # the outcome (text or exception) must be the same on every host
+    for name, hs_ in per_host_pools.items():
+        vals = [set(x) for x in hs_]
+        sus = set().union(*vals) - set.intersection(*vals) if vals else set()
+        sus = {v for v in sus if isinstance(v, int) and 0 < v < (1 << 40)}
+        if sus:
+            bits = {1 << b for v in sus for b in range(v.bit_length()) if v >> b & 1}
+            pools[name]['host_dependent'] = sorted(sus | bits)[:40]
+    ctx.extra['decoders_with_host_dependent_constants'] = sorted(n for n, u in pools.items() if u.get('host_dependent'))
     for host in ('real', 'linux', 'darwin', 'other'):
         import_under(host)
         per_host[host] = renderings(random.Random(ctx.seed), pools, flood=70000)
